@@ -113,17 +113,14 @@ func H_C23_duration() {
 	}
 }
 
-// H_C23_duration_long: long literals: 0..13 and 18..20 integer digits (crossing the
-// maxSecondsInDuration = 315576000000 boundary at 12 digits and the int64/uint64 limits at 19/20
-// digits) followed by no, 0, 1, 9 or 10 fractional digits.
+// H_C23_duration_long: long literals: 0..13 integer digits (crossing the maxSecondsInDuration =
+// 315576000000 boundary at 12 digits) followed by no, 0, 1, 9 or 10 fractional digits. The
+// int64/uint64 limits (19/20 digits) are covered by H_C23_duration_limits.
 // Shapes are case-split, digits are symbolic.
 //
-//verif:props=C23 bounds=sign?+intdigits-in{0..13,18,19,20}+fracdigits-in{none,0,1,9,10} solver=cvc5-int timeout=20000 deadline=1500
+//verif:props=C23 bounds=sign?+intdigits-in-0..13+fracdigits-in{none,0,1,9,10} solver=cvc5-int timeout=20000 deadline=600
 func H_C23_duration_long() {
-	ni := nd.Int(0, 16)
-	if ni > 13 {
-		ni += 4 // 18, 19, 20: around the int64 and uint64 limits
-	}
+	ni := nd.Int(0, 13)
 	nfSel := nd.Int(0, 4)
 	nf := []int{-1, 0, 1, 9, 10}[nfSel] // -1: no dot
 	sign := nd.Int(0, 2)
@@ -161,5 +158,53 @@ func H_C23_duration_long() {
 	if verdict == 0 {
 		nd.Reach("ungrammatical")
 		nd.Assert(!ok, "ungrammatical Duration is rejected")
+	}
+}
+
+// H_C23_duration_limits: integer parts around 2^63 and 2^64 (a concrete 16/17-digit prefix and
+// three symbolic digits), optional sign and optional one-digit fraction: a seconds value that
+// does not fit in int64 must be rejected, anything below must be parsed exactly.
+//
+//verif:props=C23 bounds=sign?;prefix-of-2^63-or-2^64+3-symbolic-digits;optional-fraction-digit solver=z3 timeout=30000
+func H_C23_duration_limits() {
+	sign := nd.Int(0, 2)
+	prefix := "9223372036854775"
+	if nd.Bool() {
+		prefix = "18446744073709551"
+	}
+	d := nd.BytesN(3)
+	for i := range d {
+		nd.Assume(c23digit(d[i]))
+	}
+	var b []byte
+	if sign == 1 {
+		b = append(b, '-')
+	} else if sign == 2 {
+		b = append(b, '+')
+	}
+	b = append(b, prefix...)
+	b = append(b, d...)
+	if nd.Bool() {
+		f := nd.Byte()
+		nd.Assume(c23digit(f))
+		b = append(b, '.', f)
+	}
+	b = append(b, 's')
+	tail := uint64(d[0]-'0')*100 + uint64(d[1]-'0')*10 + uint64(d[2]-'0')
+	secs, _, ok := parseDuration(string(b))
+	nd.Reach("parsed")
+	if len(prefix) == 16 {
+		fits := tail <= 807
+		nd.Assert(ok == fits, "seconds fitting int64 are accepted, larger ones rejected")
+		if ok && fits {
+			nd.Reach("accepted")
+			want := int64(9223372036854775000 + tail)
+			if sign == 1 {
+				want = -want
+			}
+			nd.Assert(secs == want, "seconds exact")
+		}
+	} else {
+		nd.Assert(!ok, "a 20-digit seconds value never fits and is rejected")
 	}
 }
